@@ -35,6 +35,10 @@ largest clock is taken over the entries of THAT log (not over every record of th
 is raised, the log is joined, the view refreshed and the status brought up to date (C19). -/
 def loadSnapshot : List String := ["rebuild", "count", "max", "join", "index", "status"]
 
+/-- `oneonone.Connect` (`Connect.connectLocked`): the look-up of the peer, the `Subscribe` and the insert
+happen under one hold of `muSubs` (the first `Unlock` in the text is the error path after `Subscribe`) -/
+def connect : List String := ["lock", "subscribe", "unlock"]
+
 /-- `kvIndex.UpdateIndex` / `documentIndex.UpdateIndex` (`Model/ViewRace.lean`, `locked := true`): the
 log is copied under the index lock. -/
 def updateIndex : List String := ["lock", "copy"]
